@@ -357,6 +357,11 @@ impl PoolImpl {
         let first_unpruned_slot = self.first_unpruned_slot();
         self.slot_states = self.slot_states.split_off(&first_unpruned_slot);
         self.parent_ready_tracker.prune(first_unpruned_slot);
+        // children of decided slots no longer need a safe-to-notar notification
+        self.s2n_waiting_parent_cert.retain(|_, children| {
+            children.retain(|(child_slot, _)| *child_slot >= first_unpruned_slot);
+            !children.is_empty()
+        });
         // NOTE: The finality tracker prunes its own state internally.
     }
 
